@@ -49,7 +49,13 @@ def _ops(depth):
     if depth > 0:
         alts += [st.tuples(st.just("advance"), st.sampled_from([0, 1, 4, 5, 9, 10, 11, 20, 50, 100])),
                  st.tuples(st.just("advance"), st.sampled_from([0, 1, 4, 5, 9, 10, 11, 20, 50, 100])),
-                 st.tuples(st.just("mode_cycle"))]
+                 st.tuples(st.just("mode_cycle")),
+                 # the stop of the mode is held up by a queue wait on mode_m1_stopping (an outro); meanwhile time passes and
+                 # delays are asked about / asked to run
+                 st.tuples(st.just("mode_cycle"), st.sampled_from([5, 20, 60, 150]),
+                           st.lists(st.one_of(st.tuples(st.just("advance"), st.sampled_from([1, 5, 10, 20, 50])).map(list),
+                                              st.tuples(st.just("run_now"), name).map(list),
+                                              st.tuples(st.just("check"), name).map(list)), min_size=1, max_size=5))]
     return st.one_of(alts).map(list)
 
 
@@ -208,10 +214,27 @@ def check_delays(case):
                 if case["owner"] != "mode":
                     continue
                 model.classes.add("mode-stop-with-pending" if model.pending else "mode-stop")
-                rig.post("stop_m1")
-                rig.advance(0.005)
-                model.pending.clear()       # the owning mode stopped: nothing may fire any more
-                rig.advance(0.2)
+                if len(op) > 1:
+                    # something holds the mode_m1_stopping queue: the mode has been told to stop, its end is still to come
+                    held = []
+                    key = rig.machine.events.add_handler("mode_m1_stopping", lambda queue, **kwargs: (queue.wait(), held.append(queue)))
+                    if model.pending:
+                        model.classes.add("stop-held-with-pending")
+                    rig.machine.events.post("stop_m1")
+                    rig.run_ready()
+                    model.pending.clear()   # the owning mode stops: nothing may fire any more, check() says so, run_now runs nothing
+                    model.truthful("after the stop of the mode was requested (the stop is held by a queue wait)")
+                    for o in op[2]:
+                        model.do(o)
+                    rig.machine.events.remove_handler_by_key(key)
+                    for q in held:
+                        q.clear()
+                    rig.advance(0.2)
+                else:
+                    rig.post("stop_m1")
+                    rig.advance(0.005)
+                    model.pending.clear()       # the owning mode stopped: nothing may fire any more
+                    rig.advance(0.2)
                 rig.post("start_m1")
                 rig.advance(0.005)
                 model.dm = rig.machine.modes["m1"].delay
@@ -227,7 +250,7 @@ def check_delays(case):
         vio.append(violation("loop-exception", "exception reached the loop: %s" % exc[:2]))
     classes = sorted(model.classes) + ["owner-" + case["owner"], "J=%dms" % max(case["jitter"])]
     nontrivial = bool(model.classes & {"op-on-pending-name", "callback-operates-on-delays", "run_now-pending",
-                                       "mode-stop-with-pending"})
+                                       "mode-stop-with-pending", "stop-held-with-pending"})
     return Result(vio or None, classes, nontrivial)
 
 
